@@ -7,11 +7,8 @@
 
 #![allow(clippy::needless_range_loop, clippy::type_complexity)]
 
-pub mod common;
-pub mod engine;
-pub mod props;
-
-use engine::{Tier, make_ctx, run_property};
+use vcheck::engine::{self, Tier, make_ctx, run_property};
+use vcheck::props;
 
 fn usage() -> ! {
     eprintln!("usage: vcheck run <Cxx> --tier quick|thorough [--seed N] [--sub NAME]\n       vcheck replay <file>\n       vcheck selftest");
@@ -94,6 +91,38 @@ fn main() {
         "replay" => {
             if args.len() < 3 {
                 usage();
+            }
+            // saved libFuzzer inputs: replays/<Cxx>-fuzz-<hash>.bin, re-executed without the fuzzer
+            if args[2].ends_with(".bin") {
+                let data = match std::fs::read(&args[2]) {
+                    Ok(d) => d,
+                    Err(e) => {
+                        eprintln!("vcheck: cannot read {}: {e}", args[2]);
+                        std::process::exit(2);
+                    }
+                };
+                let name = std::path::Path::new(&args[2]).file_name().and_then(|s| s.to_str()).unwrap_or("").to_string();
+                let id = name.split('-').next().unwrap_or("").to_string();
+                let res = match id.as_str() {
+                    "C05" => props::c05::fuzz_bytes(&data),
+                    "C08" => props::c08::fuzz_bytes(&data),
+                    "C17" => props::c17::fuzz_bytes(&data),
+                    _ => {
+                        eprintln!("vcheck: no fuzz target for {name}");
+                        std::process::exit(2);
+                    }
+                };
+                match res {
+                    Ok(()) => {
+                        println!("replay {id}/fuzz: input passes");
+                        std::process::exit(0);
+                    }
+                    Err(f) => {
+                        eprintln!("vcheck: {id}/fuzz [{}]: {}", f.key, f.msg);
+                        println!("VIOLATION property={id} replay={}", args[2]);
+                        std::process::exit(1);
+                    }
+                }
             }
             let text = match std::fs::read_to_string(&args[2]) {
                 Ok(t) => t,
